@@ -40,6 +40,7 @@ Method(kind, N, M, intg, grid) ==
 
 Base == [t0 |-> Num(Zero), T |-> Num(One),
          states |-> <<>>, controls |-> <<>>, algs |-> <<>>, params |-> <<>>, vars |-> <<>>,
+         xblocks |-> <<>>, pblocks |-> <<>>,     \* grouping of consecutive scalar symbols into matrix-valued rockit symbols (<<>> = all scalar)
          dyn |-> "ode", rhs |-> <<>>, alg |-> <<>>, quads |-> <<>>,
          cons |-> <<>>, obj |-> <<>>, init |-> <<>>, reads |-> <<>>,
          method |-> Method("MS", 1, 1, "rk", Uniform)]
@@ -81,9 +82,17 @@ R6(N) == [Base EXCEPT !.states = <<S1>>, !.controls = <<Sym1>>, !.algs = <<Sym1>
                       !.rhs = <<Plus(Times(Z(1), U(1)), Tm)>>,
                       !.alg = <<Minus(Minus(Z(1), Times(CI(2), X(1))), CI(1))>>]
 
+\* R8:  2x2 matrix state X (column-major x1..x4), 2x2 matrix parameter P:  x_i' = p_i x_i + i u
+R8(N) == [Base EXCEPT !.states = <<S1, S1, S1, S1>>, !.controls = <<Sym1>>,
+                      !.params = Tup([i \in 1..4 |-> [kind |-> "g", val |-> <<Q(i, 2)>>]]),
+                      !.xblocks = <<<<2, 2>>>>, !.pblocks = <<<<2, 2>>>>,
+                      !.rhs = Tup([i \in 1..4 |-> Plus(Times(P(i), X(i)), Times(CI(i), U(1)))])]
+\* R3v: R3 with the two states declared as one 2x1 vector state
+R3v(N) == [R3(N) EXCEPT !.xblocks = <<<<2, 1>>>>]
+
 RhsIds == {"R1", "R2", "R3", "R4", "R5", "R7"}
 Rhs(id, N) == CASE id = "R1" -> R1(N) [] id = "R2" -> R2(N) [] id = "R3" -> R3(N)
-                [] id = "R4" -> R4(N) [] id = "R5" -> R5(N) [] id = "R7" -> R7(N) [] id = "R6" -> R6(N)
+                [] id = "R4" -> R4(N) [] id = "R5" -> R5(N) [] id = "R7" -> R7(N) [] id = "R6" -> R6(N) [] id = "R8" -> R8(N) [] id = "R3v" -> R3v(N)
 
 (***************************************************************************)
 (* Path / boundary constraints (all well-formed for every rhs above:       *)
@@ -127,5 +136,6 @@ ObjIds == {"o1", "o2", "o3", "o4", "o5", "o6", "o7", "o8"}
 ObjOf(id) == CASE id = "o1" -> O1 [] id = "o2" -> O2 [] id = "o3" -> O3 [] id = "o4" -> O4
                [] id = "o5" -> O5 [] id = "o6" -> O6 [] id = "o7" -> O7 [] id = "o8" -> O8
 
+MRead(tag, kind, es, grid) == [tag |-> tag, kind |-> kind, es |-> es, grid |-> grid, refine |-> 0]
 Read(tag, kind, e, grid) == [tag |-> tag, kind |-> kind, e |-> e, grid |-> grid, refine |-> 0]
 =============================================================================
